@@ -104,3 +104,39 @@ CONTRACTS = {
         rounds=3, chunks=4, timeout_ms=30000,
     ),
 }
+
+# ---- hull of the ACTIVE control points (C18: "the degree+1 control points active on its knot interval").
+# Ghost bounding sequences, non-decreasing in the control-point index:  lu[q] <= P[q][d0] <= cu[q].  Then for every
+# evaluated point k, with spans[k] the knot span the function found for parameter k,
+#     lu[spans[k] - degree]  <=  C(u_k)[d0]  <=  cu[spans[k]]
+# (the postcondition mentions the function's final local `spans`; no caller uses this contract).  A control-point index
+# outside [span - degree, span] in either direction cannot satisfy both for all such sequences.
+MONO = lambda a: 'forall(x, 0, len(%s), forall(y, x, len(%s), %s[x] <= %s[y]))' % (a, a, a, a)
+_base = CONTRACTS['evaluators.CurveEvaluator.evaluate']
+_PI = 'ctrlpts[spans[idx] - degree + head_i][d0]'
+CONTRACTS['evaluators.CurveEvaluator.evaluate#active_hull'] = dict(
+    _base,
+    target='evaluators.CurveEvaluator.evaluate',
+    props=['C18'],
+    ghost_args=OD([('kw_start', 'real'), ('kw_stop', 'real'), ('d0', 'int'), ('cu', ('list', 'real')), ('lu', ('list', 'real'))]),
+    requires=[r for r in REQ if 'h0' not in r and 'h1' not in r and 'h2' not in r and 'd1' not in r and 'd2' not in r] + [
+        'len(cu) == %s' % N_, 'len(lu) == %s' % N_, MONO('cu'), MONO('lu'),
+        'forall(q, 0, len(%s), %s[q][d0] <= cu[q] and %s[q][d0] >= lu[q])' % (CP, CP, CP)],
+    ensures=_base['ensures'][:3] + [
+        'forall(k, 0, len(result), result[k][d0] <= cu[spans[k]] and result[k][d0] >= lu[spans[k] - degree])'],
+    loops={0: dict(inv=['len(eval_points) == idx',
+                        "forall(k, 0, idx, len(eval_points[k]) == %s)" % DIM,
+                        'forall(k, 0, idx, eval_points[k][d0] <= cu[spans[k]] and eval_points[k][d0] >= lu[spans[k] - degree])']),
+           1: dict(inv=["len(crvpt) == %s" % DIM,
+                        'crvpt[d0] <= cu[spans[idx]] * sum(basis[idx], 0, i)',
+                        'crvpt[d0] >= lu[spans[idx] - degree] * sum(basis[idx], 0, i)'],
+                   hints=['basis[idx][head_i] >= 0',
+                          '%s <= cu[spans[idx] - degree + head_i]' % _PI, '%s >= lu[spans[idx] - degree + head_i]' % _PI,
+                          'cu[spans[idx] - degree + head_i] <= cu[spans[idx]]', 'lu[spans[idx] - degree + head_i] >= lu[spans[idx] - degree]',
+                          'basis[idx][head_i] * %s <= basis[idx][head_i] * cu[spans[idx]]' % _PI,
+                          'basis[idx][head_i] * %s >= basis[idx][head_i] * lu[spans[idx] - degree]' % _PI,
+                          'cu[spans[idx]] * sum(basis[idx], 0, head_i + 1) == cu[spans[idx]] * sum(basis[idx], 0, head_i) + cu[spans[idx]] * basis[idx][head_i]',
+                          'lu[spans[idx] - degree] * sum(basis[idx], 0, head_i + 1) == lu[spans[idx] - degree] * sum(basis[idx], 0, head_i) + lu[spans[idx] - degree] * basis[idx][head_i]'])},
+    rounds=3, chunks=8, timeout_ms=60000,
+)
+del _base
